@@ -471,3 +471,141 @@ def c12_g(ctx):
                       '{s: samples[s][:n] for s in self.sums}',
                       'the distance is not recomputed from all summaries in self.sums', fn=f,
                       node=c)
+
+
+@obligation('C12-h', 'T14', 'the batched moment update preserves (count, mean, sum of squared '
+            'deviations) exactly, so the scale is the population standard deviation of all rows '
+            'however they were batched', floor=4,
+            necessary='if the recurrence does not map the invariant state of the rows seen so far '
+                      'to the invariant state of all rows, the scale depends on the batch split')
+def c12_h(ctx):
+    from .. import sumalg as sa_
+    from ..ratfun import Rat, Unsupported, DividesByZero
+    sa_.selfcheck()
+    ctx.fact('induction over batches: state (N, s1/N, s2 - s1^2/N) for the rows seen; one '
+             'column is considered (all reductions are along axis 0, columns are independent)')
+    ad = ctx.cls(AD)
+    add = ctx.own_method(ad, 'add_data')
+    ex = ctx.ex(add)
+    body = [s for s in add.node.body if not (isinstance(s, ast.Expr) and
+                                             isinstance(s.value, ast.Constant))]
+    S = sa_.S
+    N, s1, s2 = Rat.sym('N'), Rat.sym('s1'), Rat.sym('s2')
+    k = Rat.sym('n')                                  # rows in the batch
+
+    def run(pre):
+        """Abstractly execute the straight-line body from the pre-state; -> (locations, scale)"""
+        loc = {}
+        env = {}
+        data_name = add.node.args.vararg.arg if add.node.args.vararg else add.params[1]
+
+        def vec_leaf(t):
+            return None
+        store_base = [None]
+
+        def scalar_leaf(t):
+            # a state slot that has not been written yet holds its pre-state value
+            if t[0] == 'sub' and t[2][0] == 'const' and t[2][1] in pre and \
+                    contains(t[1], "self.state['store']") and t[1][0] == 'sub':
+                return pre[t[2][1]]
+            return None
+        cv = sa_.Conv(vec_leaf, scalar_leaf=scalar_leaf)
+        cv.env.append(env)
+
+        def ev(e):
+            t = ex.raw(e)
+            return cv.conv(t)
+
+        def loc_key(target):
+            return ex.raw(target)
+        scale = None
+        for s in body:
+            if isinstance(s, ast.Assign) and len(s.targets) == 1 and \
+                    isinstance(s.targets[0], ast.Name):
+                name = s.targets[0].id
+                t = ex.raw(s.value)
+                if t[0] == 'call' and t[1] == ('global', 'numpy.column_stack'):
+                    env[('name', name)] = sa_.Vec.sym('d')
+                    env[('param', name)] = sa_.Vec.sym('d')
+                else:
+                    env[('name', name)] = cv.conv(t)
+            elif isinstance(s, ast.AugAssign) and isinstance(s.target, ast.Subscript):
+                key = loc_key(s.target)
+                if key not in env:
+                    idx = key[2]
+                    if not (idx[0] == 'const' and idx[1] in pre):
+                        raise Unsupported('unknown location ' + show(key))
+                    env[key] = pre[idx[1]]
+                cur = env[key]
+                val = cv.conv(ex.raw(s.value))
+                if isinstance(val, sa_.Vec) or isinstance(cur, sa_.Vec):
+                    raise Unsupported('vector stored in the state')
+                if isinstance(s.op, ast.Add):
+                    env[key] = cur + val
+                elif isinstance(s.op, ast.Sub):
+                    env[key] = cur - val
+                else:
+                    raise Unsupported('augmented operator')
+                if key[2][0] == 'const':
+                    loc[key[2][1]] = env[key]
+            elif isinstance(s, ast.Assign) and isinstance(s.targets[0], ast.Subscript):
+                t = ex.raw(s.value)
+                if t[0] == 'call' and t[1] == ('global', 'numpy.sqrt') and len(t[2]) == 1:
+                    scale = cv.conv(t[2][0])
+                else:
+                    raise Unsupported('unexpected store ' + src(s))
+            elif isinstance(s, ast.Pass) or (isinstance(s, ast.Expr) and
+                                             isinstance(s.value, ast.Constant)):
+                continue
+            else:
+                raise Unsupported('statement ' + src(s)[:40])
+        # np.sum must reduce along the rows
+        for c in ctx.calls(add, 'np.sum(*_)'):
+            kw = dict((q.arg, q.value) for q in c.keywords)
+            if not ('axis' in kw and isinstance(kw['axis'], ast.Constant) and
+                    kw['axis'].value == 0):
+                raise Unsupported('np.sum not along axis 0')
+        # unread locations keep their pre-state
+        for i in pre:
+            loc.setdefault(i, pre[i])
+        return loc, scale
+    cases = [
+        ('inductive step', {0: N, 1: s1 / N, 2: s2 - s1 * s1 / N},
+         (N + k, (s1 + S(d=1)) / (N + k),
+          (s2 + S(d=2)) - (s1 + S(d=1)) * (s1 + S(d=1)) / (N + k))),
+        ('first batch after a reset', {0: Rat.const(0), 1: Rat.const(0), 2: Rat.const(0)},
+         (k, S(d=1) / k, S(d=2) - S(d=1) * S(d=1) / k)),
+    ]
+    for (label, pre, want) in cases:
+        try:
+            loc, scale = run(pre)
+        except DividesByZero:
+            ctx.check(False, add, 'moment update: ' + label, '', 'the update divides by a '
+                      'quantity that is identically zero ({})'.format(label), fn=add,
+                      node=add.node)
+            continue
+        except Unsupported as e:
+            ctx.undecided('add_data outside the straight-line sum fragment: {}'.format(e))
+        names = ('count', 'mean', 'sum of squared deviations')
+        for i in (0, 1, 2):
+            ctx.check(loc[i].same(want[i]), add, '{}: {} of all rows'.format(label, names[i]),
+                      str(want[i])[:80],
+                      '{}: after the update the stored {} is {} instead of {}'.format(
+                          label, names[i], loc[i], want[i]), fn=add, node=add.node)
+        ok = scale is not None and scale.same(want[2] / want[0])
+        ctx.check(ok, add, '{}: scale^2 = sum of squared deviations / count'.format(label),
+                  'population variance', 'the scale is not sqrt(M2 / N) (population standard '
+                  'deviation)', fn=add, node=add.node)
+    # the reset writes the zero state the base case starts from
+    rst = ctx.own_method(ad, 'init_adaptation_round')
+    exr = ctx.ex(rst)
+    zeros = set()
+    for s in own_nodes(rst.node):
+        if isinstance(s, ast.Assign) and isinstance(s.targets[0], ast.Subscript) and \
+                exr.raw(s.value) == ('const', 0):
+            key = exr.raw(s.targets[0])
+            if key[2][0] == 'const':
+                zeros.add(key[2][1])
+    ctx.check(zeros >= {0, 1, 2}, rst, 'reset state = (0, 0, 0)', '',
+              'the adaptation round does not start from count = mean = M2 = 0', fn=rst,
+              node=rst.node)
